@@ -573,7 +573,7 @@ def with_fixed(tok, mask):
     for l in tok:
         out.append(l)
         if l.startswith("init "):
-            out.append("fixed %d" % (mask | 127 | 512))     # bits 0..6 and 9: committed C08 fixes (malformed streams only), the mirror's baseline
+            out.append("fixed %d" % (mask | 127 | 512 | 1024))     # bits 0..6, 9, 10: committed C08 fixes (malformed streams only), the mirror's baseline
     return out
 
 
